@@ -29,8 +29,9 @@ def gen(rng, tier):
 
 
 def _canon(line):
-    """steps -> list of (verdict, node set, rrset set, soa, ns) with lower-cased names"""
+    """steps -> list of (verdict, node set, rrset set, soa, ns)"""
     out = []
+    # names compared case-insensitively for the property verdict (the model column is compared exactly)
     for st in zg.lower_names(line).split(" / "):
         m = re.fullmatch(r"(new|ok|err \w+|panic)(?: N\{(.*)\} R\{(.*)\} S(\S+) T(\S+))?", st)
         if not m:
@@ -61,7 +62,7 @@ CHECK = {
     "property": "C20",
     "props": "Props/C20.v",
     "theorems": ["c20_add_result", "c20_add_ok_iff", "c20_add_err_kind", "c20_iter_by_node",
-                 "c20_iter_by_rrset", "c20_iter_state_machine", "c20_soa_ns"],
+                 "c20_iter_by_rrset", "c20_iter_names_spelled", "c20_iter_state_machine", "c20_soa_ns"],
     "allowed_axioms": [],
     "correspondence": {"impl_bin": "impl_zone", "extract": "Extract/ExZone.v", "driver": "run_zone.ml",
                        "runner_name": "zone"},
@@ -75,7 +76,7 @@ CHECK = {
              "in-zone and out-of-zone owners, class mismatches, TTL mismatches, exact duplicates, case variants of owners "
              "and of name RDATA; after new and after EVERY add the line records the Result, the full iter_by_node and "
              "iter_by_rrset output (sorted) and soa()/ns(); implementation vs model compared exactly, implementation vs "
-             "specification as sets with names lower-cased; non-trivial = at least one rejected add and an empty "
+             "specification as sets with names compared case-insensitively; non-trivial = at least one rejected add and an empty "
              "non-terminal or a multi-RDATA RRset; distinct = distinct case line"),
     "trusted_base": [
         "Coq 8.16.1 kernel",
